@@ -88,6 +88,11 @@ def run(ctx):
     ctx.rule("T6", "exactly one termination: while the watchdog answers a request (RESPOND) the request is not visible to the slaves any "
                    "more (AXI / AXI-Lite: a handshake completed by the watchdog on the shared wires can be completed by the slave too)",
              min_sites=4)
+    ctx.rule("T7", "the interconnect survives a time-out: the locks' outstanding-request counters never leave 0..max-1 (a response "
+                   "produced by the watchdog for a request that was never counted must not wrap the counter: the lock would stay "
+                   "closed for ever)", min_sites=8)
+    from .c08 import lock_counter_range
+    lock_counter_range(ctx, "T7")
     ctx.rule("T3", "Timeout bodies: wait condition, forced termination with error data, RESPOND exits only on the response "
                    "handshake, error pulse, RESP_SLVERR = 0b10", min_sites=40)
     ctx.rule("T4", "WaitTimer: done = count == 0; decrement under wait & ~done; reload when not waiting; reset value t", min_sites=4)
